@@ -398,6 +398,43 @@ def helper_contracts(ctx, rep):
                 rep.check(ok, 'dep:u8_nfc call at %s is unconditional within %s' % (i.loc, base_name(g.name)), i.loc, '%s: composition is skipped on some paths' % base_name(g.name),
                           key='HELP-5|%s' % base_name(g.name))
         rep.instances(n5, 1, 'dep:u8_nfc call sites')
+        rep.rule('HELP-6', 'returned length of polyseed_encode: on the copying (non-composing) branch the local buffer is copied to str_out with length L+1 and '
+                 'L is returned, where L = (writer cursor after the last word) - (start of the local buffer) and the terminator was stored through that same '
+                 'cursor; on the composing branch the value returned by dep:u8_nfc is returned')
+        for g in P.fns('polyseed_encode'):
+            w = '%s:%s' % ((g.file or '').replace('/repo/', ''), g.line)
+            rets = [i for i in g.all_insts() if i.op == 'ret']
+            srcs = []
+            def expand(v, d=0):
+                i = inst_of(g, v)
+                if i is not None and i.op == 'phi' and d < 4:
+                    out = []
+                    for x, _ in i.d['incoming']: out += expand(x, d + 1)
+                    return out
+                return [v]
+            for r_ in rets: srcs += expand(r_.ops[0])
+            kinds = []
+            mc = [i for i, t in P.calls(g) if t[0] == 'direct' and (t[1].startswith('llvm.memcpy') or t[1] == 'memcpy') and addr_base(g, i.ops[0])[0] == ('a', 3)]
+            for v in srcs:
+                i = inst_of(g, v)
+                if i is not None and i.op == 'call' and P.call_target(i) == ('dep', 'u8_nfc'): kinds.append('nfc'); continue
+                ok = False
+                if i is not None and i.op == 'sub':
+                    a, b = inst_of(g, i.ops[0]), inst_of(g, i.ops[1])
+                    if a is not None and b is not None and a.op == 'ptrtoint' and b.op == 'ptrtoint':
+                        bb, bo = addr_base(g, b.ops[0])
+                        cur = inst_of(g, a.ops[0])
+                        if bb is not None and bb[0] == 'i' and g.insts[bb[1]].op == 'alloca' and bo == 0 and cur is not None and cur.op == 'load':
+                            slot = addr_base(g, cur.ops[0])[0]
+                            # a NUL store through a load of the same cursor slot dominates, with no writer call in between
+                            nul = [s_ for s_ in g.all_insts() if s_.op == 'store' and const_of(s_.ops[0]) == 0 and s_.d['size'] == 1 and inst_of(g, s_.ops[1]) is not None
+                                   and inst_of(g, s_.ops[1]).op == 'load' and addr_base(g, inst_of(g, s_.ops[1]).ops[0])[0] == slot and g.inst_dominates(s_, i)]
+                            lens = [m for m in mc if inst_of(g, m.ops[2]) is not None and inst_of(g, m.ops[2]).op == 'add' and inst_of(g, m.ops[2]).ops[0] == v and const_of(inst_of(g, m.ops[2]).ops[1]) == 1
+                                    and addr_base(g, m.ops[1]) == (bb, 0)]
+                            ok = bool(nul) and len(lens) == 1 and len(mc) == 1
+                kinds.append('count' if ok else 'other')
+            rep.check(sorted(set(kinds)) == ['count', 'nfc'], 'polyseed_encode returns dep:u8_nfc\'s result or the byte count of the terminated local buffer it copies (+1 for the NUL)', w,
+                      base_name(g.name), detail=kinds, sample=kinds, key='HELP-6|ret')
         rep.rule('HELP-4', 'the default clock returns the value of time(NULL) unchanged (no truncation)')
         for g in P.defined.values():
             calls = [i for i, t in P.calls(g) if t == ('direct', 'time')]
